@@ -122,6 +122,7 @@ def _run_case(args):
     from . import explore as E
 
     t0 = time.time()
+    sys.set_int_max_str_digits(0)
     out = {"case": case["name"], "canary": canary["name"] if canary else None}
     try:
         mod = _import_check(check_id)
@@ -586,11 +587,11 @@ def run_check(check_id: str, tier: str, seed: int, jobs: int | None = None, only
         f"inconclusive={total.inconclusive} queries={sum(total.queries.values())} solver_s={total.solver_s:.1f} canaries={sum(1 for c in can_summary if c.get('caught'))}/{len(can_summary)} "
         f"(stale {sum(1 for c in can_summary if c['status'] == 'stale')}) known={len(printed)} violations={len(violations)} wall={wall:.1f}s"
     )
+    for h in harness_errors[: int(os.environ.get("SYMX_MAX_ERRORS", "12"))]:
+        print("HARNESS-ERROR " + h)
     if violations:
         return EXIT_VIOLATION
     if harness_errors:
-        for h in harness_errors[:12]:
-            print("HARNESS-ERROR " + h)
         return EXIT_HARNESS
     return EXIT_OK
 
